@@ -11,7 +11,7 @@
 //                                    existing file first, 2 keeps it);  recreate <0|1>: recreateUnmatchedVersion flag (default 1)
 //   schema <n>                       client schema version used when attaching (default 1)
 //   restart                          new engine instance (over the same database when db=1)
-//   build <k> [sched=sync|defer:<seed>|mixed:<seed>|threads:<seed>] [cancel=iter:<n>|cb:<n>|thread:<us>]
+//   build <k> [sched=sync|defer:<seed>|mixed:<seed>|threads:<seed>[:<maxus>]] [cancel=iter:<n>|cb:<n>|thread:<us>]
 //   fresh <k>                        build k in a brand-new engine without database; prints freshval lines (oracle)
 #include "common.h"
 #include "llbuild/Core/BuildEngine.h"
@@ -69,7 +69,7 @@ static void ev(const char* fmt, ...) {
 // ---- schedule / cancellation control
 static BuildEngine* g_engine = nullptr;
 enum Sched { SYNC, DEFER, MIXED, THREADS };
-static Sched g_sched = SYNC; static std::mt19937 g_rng;
+static Sched g_sched = SYNC; static std::mt19937 g_rng; static unsigned g_maxus = 1200;
 struct Pending { int k; TaskInterface ti; ValueType v; std::vector<int> disc; };
 static std::vector<Pending> g_pend; static std::mutex g_pm;
 static std::vector<std::thread> g_threads;
@@ -145,7 +145,7 @@ struct DTask : Task {
     if (g_quiet) g_freshvals[k] = vs(p.v);
     if (g_sched == SYNC || g_quiet) { finish(p); return; }
     if (g_sched == THREADS) {
-      int us; { std::lock_guard<std::mutex> g(g_pm); us = g_rng() % 1200; }
+      int us; { std::lock_guard<std::mutex> g(g_pm); us = g_maxus ? g_rng() % g_maxus : 0; }
       g_threads.emplace_back([p, us]() mutable { usleep(us); finish(p); });
       return;
     }
@@ -297,6 +297,7 @@ int main(int argc, char** argv) {
         if (t[i].compare(0, 6, "sched=") == 0) {
           SV p = split(t[i].substr(6), ':'); unsigned seed = p.size() > 1 ? atoi(p[1].c_str()) : 0; g_rng.seed(seed);
           g_sched = p[0] == "defer" ? DEFER : p[0] == "mixed" ? MIXED : p[0] == "threads" ? THREADS : SYNC;
+          g_maxus = p.size() > 2 ? atoi(p[2].c_str()) : 1200;     // threads:<seed>:<max delay in us> (0 = complete at once)
         } else if (t[i].compare(0, 7, "cancel=") == 0) {
           SV p = split(t[i].substr(7), ':'); long n = atol(p[1].c_str());
           if (p[0] == "iter") g_cancel_iter = n; else if (p[0] == "cb") g_cancel_cb = n; else cancel_us = n;
